@@ -6,6 +6,7 @@ package main
 import (
 	"encoding/json"
 	"fmt"
+	"log"
 	"math/rand"
 	"os"
 	"sort"
@@ -88,6 +89,10 @@ func main() {
 	rng := lib.NewRand(f.Seed)
 	for _, build := range builders {
 		for _, s := range build(f, res, rng) {
+			if os.Getenv("C20_DEBUG") != "" {
+				log.SetFlags(log.Lmicroseconds)
+				log.Println("section", s.name)
+			}
 			s.run(drv)
 		}
 	}
